@@ -267,7 +267,7 @@ func faultyConfig(tier string) *opspace.Config {
 	p := chartSel{A: 1, S: 1}.spec(101)        // {a, s}
 	q := chartSel{A: 2, W: 1}.spec(102)        // {a', w}: drops s, adds w
 	r := chartSel{A: 2, AP: 1, S: 2}.spec(103) // {a' keep, s'}
-	ops := []hx.Op{{Kind: "upgrade", Chart: q}, {Kind: "upgrade", Chart: p}, {Kind: "upgrade", Chart: r}, {Kind: "rollback"}, {Kind: "uninstall"}}
+	ops := []hx.Op{{Kind: "upgrade", Chart: q}, {Kind: "upgrade", Chart: p}, {Kind: "upgrade", Chart: r}, {Kind: "rollback"}, {Kind: "uninstall"}, {Kind: "uninstall", KeepHistory: true}}
 	cfg := &opspace.Config{
 		Property:  prop,
 		Drivers:   []string{"memory"},
@@ -286,9 +286,6 @@ func faultyConfig(tier string) *opspace.Config {
 			return out
 		},
 		FaultKinds: func(_ string, op hx.Op, call sim.Call) []string {
-			if op.Kind == "uninstall" {
-				return nil
-			}
 			switch call.Class {
 			case "cluster":
 				if call.Mutating {
